@@ -13,9 +13,10 @@ import ast
 
 from sa.model import AnalysisError
 from sa.ctx import Ctx
+from sa.cfg import NORMAL, describe_path
 from sa.report import Report
 from sa import pat
-from sa.util import fact_in
+from sa.util import node_has_call, fact_in, fact_in
 from rules.C12 import C12
 
 
@@ -135,6 +136,36 @@ def run(ctx: Ctx, rep: Report, tier: str):
         rep.check("C13.Z9", "join|prefix-decision", ctx.line(jf, st_), not others, "guards mention only `%s`" % j,
                   "the leading separator is added depending on %s (an input component), not on the joined value: a first component such as `c:\\Users\\me` is no longer "
                   "recognised as drive-rooted, join() leaves its own folder (is_subpath(folder, join(folder, rel)) is false)" % sorted(others))
+    rep.rule("C13.Z10", "normalize_path folds case only for a case-insensitive provider (every result that applies lower()/casefold() is reached with `self.case_sensitive` "
+             "false), and works on the separator-normalised path: the value that is split into parts is normalize_path_separators(path)", 2)
+    np2 = ctx.prog.func("Provider.normalize_path")
+    low = [n for n in ctx.own_nodes(np2) if isinstance(n, ast.Return) and n.value is not None and any(
+        isinstance(x, ast.Call) and isinstance(x.func, ast.Attribute) and x.func.attr in ("lower", "casefold", "upper") for x in ast.walk(n.value))]
+    if not low:
+        raise AnalysisError("normalize_path: no case-folding result found")
+    for r_ in low:
+        rep.check("C13.Z10", "normalize_path|fold-only-insensitive|%d" % low.index(r_), ctx.line(np2, r_), fact_in(ctx.facts_at(np2, r_), "self.case_sensitive", False),
+                  "folded only when the provider is case-insensitive",
+                  "`%s` folds case although the provider may be case-sensitive: two different paths of a case-sensitive provider compare equal (a case-only rename of a "
+                  "folder is invisible)" % ast.unparse(r_)[:80])
+    pth_p = np2.params()[1]
+    defs_ = {}
+    for n in ctx.own_nodes(np2):
+        if isinstance(n, ast.Assign) and isinstance(n.targets[0], ast.Name):
+            defs_.setdefault(n.targets[0].id, []).append(n)
+    splits = [n for n in ctx.own_nodes(np2) if isinstance(n, ast.Call) and ast.unparse(n.func) in ("re.split",) and len(n.args) >= 2]
+    ok_sep = bool(splits)
+    for sp in splits:
+        a_ = sp.args[1]
+        # the split operand is the parameter AFTER it was rebound to normalize_path_separators(param), or a local holding that value
+        g_ = ctx.cfg(np2)
+        norm_nodes = [n for n in g_.nodes if node_has_call(n, "self.normalize_path_separators(%s)" % pth_p) or node_has_call(n, "$C.normalize_path_separators(%s)" % pth_p)]
+        use = g_.stmt_nodes_containing(sp)
+        p_ = g_.reach([g_.entry.id], lambda n: n in use, avoid=lambda n: n in norm_nodes, follow=NORMAL)
+        ok_sep = ok_sep and bool(norm_nodes) and p_ is None and isinstance(a_, ast.Name)
+    rep.check("C13.Z10", "normalize_path|separators-first", np2, ok_sep, "parts are split from normalize_path_separators(path)",
+              "normalize_path no longer normalises separators before it splits the path: runs of the alternate separator survive, normalisation is not idempotent and "
+              "paths_match(`/docs\\\\a.txt`, `/docs/a.txt`) is false")
     rep.rule("C13.Z1", "alias of C12.Y5: component boundary + symmetric case fold in is_subpath", expect_min=4)
     rep.rule("C13.Z6", "alias of C12.Y2: default translate uses the source side's provider for membership and the destination's for the join", expect_min=3)
     c12 = C12(ctx, rep)
